@@ -1,5 +1,6 @@
 import Vflow.Proofs.RoundV9
 import Vflow.Proofs.HeaderLayouts
+import Vflow.Proofs.Interpret
 import Vflow.Gen.Sites
 import Vflow.Spec.Sites
 /-!
@@ -12,6 +13,11 @@ differential correspondence).  From the leaves up: record, record loop, flowset,
 Preconditions (the Boolean predicates `Wire.V9.wf…`, all decidable; see `Spec/Wire.lean`):
 * every specifier of the template is in the information model (`lookupElem … = some …`), v9 has no
   enterprise numbers (`ent = 0`), each value has exactly the announced length;
+* no hypothesis on field lengths versus the field type's data type ("any field types and lengths"): the reported
+  value is `interpret octets type` for every length, and for the integer types that is the value of ALL the field's
+  octets whenever the field is at least as long as the type and at most 8 octets (`unsigned_field_value`,
+  `signed_field_value`) — F24: before the repair `Interpret` read the leading octets of the type's size, so
+  FLOW_SAMPLER_ID (unsigned8) in the 2 octets `00 07` was 0 (`f24_repaired`) — and the raw octets otherwise (`field_raw`);
 * every data record has a positive length (`0 < recLen t`; a template of zero-length fields describes
   no octets, the decoder reports `zero-length data record`, F2) — the former "longer than 4 octets"
   (finding K2) is gone since the padding repair: `k2_repaired`;
@@ -164,6 +170,61 @@ set_option maxRecDepth 100000 in
 records are a fourth record) -/
 example : Wire.V9.wfSet exAddr (Wire.V9.applySet exAddr ([], []) (.tpl [exTpl] [])).2
     (.data exTpl [[[10,0,0,1],[10,0,0,2]]] [0,0,0,0,0,0,0,0]) = false := by decide
+
+/-! ## Repaired finding F24: an integer field longer than its type decoded to its leading octets -/
+
+/-- **C06 (value of an unsigned field)**: what the round trips report for an unsigned8 … unsigned64 field type sent in
+`k ≤ n ≤ 8` octets (`k` the type's size; RFC 3954 §8 gives most counters and indices a configurable length `N`, and
+exporters send unsigned8 / unsigned32 types in 2, 4 or 8 octets) is the field type id, enterprise 0 and the number
+whose network-byte-order representation ALL `n` octets are (`Wire.unsignedValue`, written without reference to
+`interpret`).  False before the F24 repair. -/
+theorem unsigned_field_value (s : Spec) (v : Bytes) (fid ty k : Nat)
+    (hl : lookupElem s.ent s.id = some (fid, ty)) (ht : uintSize? ty = some k)
+    (hk : k ≤ v.length) (h8 : v.length ≤ 8) :
+    (expectedField s v).id = fid ∧ (expectedField s v).ent = s.ent ∧
+    intOf (expectedField s v).val = some (unsignedValue v : Int) :=
+  Interp.expected_unsigned s v fid ty k hl ht hk h8
+
+/-- **C06 (value of a signed field)**: two's complement over all `8·n` bits of the field -/
+theorem signed_field_value (s : Spec) (v : Bytes) (fid ty k : Nat)
+    (hl : lookupElem s.ent s.id = some (fid, ty)) (ht : intSize? ty = some k)
+    (hk : k ≤ v.length) (h8 : v.length ≤ 8) :
+    (expectedField s v).id = fid ∧ (expectedField s v).ent = s.ent ∧
+    intOf (expectedField s v).val = some (signedValue v) :=
+  Interp.expected_signed s v fid ty k hl ht hk h8
+
+/-- the Go type of an integer value: that of the type's size for a full-size field, 64 bits for a longer one -/
+theorem integer_field_kind (b : Bytes) (t k : Nat) (hk : k ≤ b.length) (h8 : b.length ≤ 8) :
+    (uintSize? t = some k → (interpret b t).kind = (if b.length = k then "u" ++ toString (8 * k) else "u64")) ∧
+    (intSize? t = some k → (interpret b t).kind = (if b.length = k then "i" ++ toString (8 * k) else "i64")) :=
+  ⟨fun ht => (Interp.interpret_unsigned b t k ht hk h8).2, fun ht => (Interp.interpret_signed b t k ht hk h8).2⟩
+
+/-- **C06 ("raw octets when encoded shorter than the type's size")**, and an integer field of more than 8 octets -/
+theorem field_raw (s : Spec) (v : Bytes) (fid ty : Nat)
+    (hl : lookupElem s.ent s.id = some (fid, ty))
+    (h : v.length < minLen ty ∨ (((uintSize? ty).isSome ∨ (intSize? ty).isSome) ∧ 8 < v.length)) :
+    expectedField s v = ⟨fid, s.ent, .raw v⟩ :=
+  Interp.expected_raw s v fid ty hl h
+
+/-- FLOW_SAMPLER_ID (48, unsigned8) announced with 2 octets, INPUT_SNMP (10, unsigned32) with 8, IPV4_SRC_ADDR -/
+def f24Tpl : Template := ⟨256, 3, 0, [], [⟨48, 2, 0⟩, ⟨10, 8, 0⟩, ⟨8, 4, 0⟩]⟩
+/-- the witness of `corpus/C06/nf9-wf--F24-overlong-integers.txt` (2 octets of flowset padding) and a second record -/
+def f24Msg : Wire.V9.Msg :=
+  { count := 1, upTime := 0, secs := 0, seq := 1, srcId := 0,
+    sets := [.tpl [f24Tpl] [],
+             .data f24Tpl [[[0,7], [0,0,0,0,0,0,0,5], [10,0,0,1]],
+                           [[1,0], [255,255,255,255,255,255,255,255], [10,0,0,2]]] [0,0]] }
+
+set_option maxRecDepth 100000 in
+/-- **F24 repaired**: before the repair the first record came back as `uint8(0)`, `uint32(0)` — the leading octets of
+the type's size — and the second as `uint8(1)`, `uint32(4294967295)`; now the values are those of the fields. -/
+theorem f24_repaired :
+    Wire.V9.wfMsg exAddr [] f24Msg = true ∧
+    (V9.decode [] exAddr (Wire.V9.encodeMsg f24Msg)).1 =
+      .ok (Wire.V9.expectedHdr f24Msg,
+           [[⟨48, 0, .u64 7⟩, ⟨10, 0, .u64 5⟩, ⟨8, 0, .ip [10,0,0,1]⟩],
+            [⟨48, 0, .u64 256⟩, ⟨10, 0, .u64 18446744073709551615⟩, ⟨8, 0, .ip [10,0,0,2]⟩]], []) := by
+  refine ⟨by decide, by rfl⟩
 
 /-! ## Tie: the fixed-layout readers of the model read the layouts REGENERATED from the decoder source
 (`Gen.Layouts.*`, re-extracted from the `unmarshal` chains on every run; proofs in `Proofs/HeaderLayouts.lean`) -/
